@@ -952,6 +952,22 @@ def probes(ctx):
             break
         except Exception:
             pass
+    # (C) labelled result of contained_coalescent_tree must not depend on id()-ordered sets
+    def cc_once(pad):
+        junk = [object() for _ in range(pad)]      # shifts the addresses of the Taxon objects
+        sp = dendropy.Tree.get(data="[&R] (A:10,(B:6,(C:4,D:4):2):4);", schema="newick")
+        m = dendropy.TaxonNamespaceMapping.create_contained_taxon_mapping(sp.taxon_namespace, num_contained=4)
+        g = treesim.contained_coalescent_tree(sp, m, rng=random.Random(5))
+        del junk
+        return newick_repr(g)
+    try:
+        outs = {cc_once(7 * k) for k in range(8)}
+        if len(outs) > 1:
+            ctx.violation("contained_coalescent_tree: %d differently labelled trees from 8 runs with random.Random(5) and equal "
+                          "(rebuilt) arguments: gene nodes are created by iterating a set of Taxon hashed by id()" % len(outs),
+                          {"probe": "contained-set-order"}, key=KEY_SETORDER)
+    except Exception:
+        pass
     # (D) functions that take rng= and still use the global generator
     with poisoned_globals() as p:
         try:
@@ -1079,6 +1095,16 @@ def run(tier, seed, replay=None):
     if not ok:
         core.broken_proof(ctx, search)
 
+    if tier == "thorough" and ok:
+        rc, out = core.sh("timeout 1500 coqchk -silent -o -Q . DV DV.Props.C18", cwd=core.COQ, timeout=1530)
+        flat = " ".join(out.split())
+        clean = (rc == 0 and "* Axioms: <none>" in flat and "type-in-type: <none>" in flat
+                 and "unsafe (co)fixpoints: <none>" in flat and "positivity is assumed: <none>" in flat)
+        ctx.obligation("coqchk -o DV.Props.C18: no axioms, no unsafe flags", clean)
+        ctx.notes.append("coqchk: " + flat[flat.find("CONTEXT SUMMARY"):][:400])
+        if not clean:
+            core.broken_proof(ctx, search)
+
     form = probe_fresh_label_site()
     FRESH_NEW[0] = (form == "new")
     ctx.notes.append("fresh-label site form in the working tree: %s" % form)
@@ -1107,6 +1133,17 @@ def run(tier, seed, replay=None):
             if tc is not None:
                 cases.append(tc)
                 count_dist(ctx, tc, observe(tc))
+    for sim in ("bd", "fbd"):
+        for nsl, N in ((["t1"], 3), (["t1", "T2"], 4), (["A", "t2"], 4)):
+            case = {"sim": sim, "b": "1", "d": "0", "N": N, "ns": nsl, "cs": False, "seed": 11, "cap": 100}
+            if form is None:
+                v = oracle(case, observe(case))
+                if v:
+                    ctx.violation(v[0], {"case": case, "observed": observe(case)}, key=v[1])
+                continue
+            cases.append(case)
+            count_dist(ctx, case, observe(case))
+            ctx.count("fresh-label-site-case")
     dc = directed_cases(tier)
     if tier == "quick":
         dc = ctx.rng.sample(dc, 120)
